@@ -21,7 +21,7 @@ SENT = "\x1e"
 def case_strategy():
     return st.fixed_dictionaries(
         {
-            "roots": gen.layout_forest(newlines=True, meta=True).map(lambda f: gen.number([gen.make_valid(n) for n in f])),
+            "roots": gen.layout_forest(newlines=True, meta=True, blank=("", "", " ", "\t", "\xa0", "\n")).map(lambda f: gen.number([gen.make_valid(n) for n in f])),
             "indent": st.integers(0, 8),
             "eol": st.sampled_from(EOLS),
         }
@@ -35,6 +35,10 @@ def _stats(n):
     kids = L.visible(n["kids"])
     here = n["ws"] and len(kids) >= 2 and any(L.is_block(k) for k in kids) and any(not L.is_block(k) for k in kids)
     return here or any(_stats(k) for k in kids)
+
+
+def _has_blank(n):
+    return bool(n.get("blank")) or (n["k"] == "tag" and any(_has_blank(k) for k in n["kids"]))
 
 
 def body_model(case, note):
@@ -60,7 +64,8 @@ def body_model(case, note):
             check(o.get_html_string() == exp, "default arguments differ from (0, '\\n')")
         nt = nt or _stats(r)
     kinds = {r["k"] for r in roots}
-    note(nt, "list-root-mixed" if len(roots) >= 2 and "tag" in kinds and len(kinds) > 1 else "", "eol:" + repr(eol), "indent>0" if indent else "")
+    blank = any(_has_blank(r) for r in roots)
+    note(nt, "blank-leaf" if blank else "", "list-root-mixed" if len(roots) >= 2 and "tag" in kinds and len(kinds) > 1 else "", "eol:" + repr(eol), "indent>0" if indent else "")
 
 
 def body_shift(case, note):
@@ -99,6 +104,6 @@ RULE = (
 )
 
 CLAUSES = [
-    Clause("model", body_model, strategy=case_strategy, quick=800, thorough=12000, shards_quick=4, required=("list-root-mixed", "indent>0"), rule="block with block and non-block children"),
+    Clause("model", body_model, strategy=case_strategy, quick=800, thorough=12000, shards_quick=4, required=("list-root-mixed", "indent>0", "blank-leaf"), rule="block with block and non-block children"),
     Clause("shift", body_shift, strategy=case_strategy, quick=400, thorough=6000, shards_quick=2, rule=">=3 lines, indent>0"),
 ]
